@@ -2,14 +2,14 @@ HOOKS = {
     "guard": "OISF_LIBHTP_VERIF",
     "enable": "tools/vbuild.py compiles /repo/htp/*.c and /repo/htp/lzma/*.c with -DOISF_LIBHTP_VERIF (see /verif/Makefile, CDEFS)",
     "baseline_off_cmd": "make -C /repo -j16 check",
-    "source_commits": ["d6504d6"],
+    "source_commits": ["d6504d6", "a9d43c9", "89124d2"],
     "add_only": True,
 }
 NOTES = ("All checks are generated-input search against an explicit oracle (rapidcheck generators with shrinking, exhaustive bounded "
          "enumeration, libFuzzer with in-target oracles, allocation-fault enumeration). ./check <id> rebuilds libhtp from /repo's working "
          "tree by content hash before every run. Known findings: /verif/known_findings.json. Design: /verif/DESIGN.md.")
 ENGINES = [
-    {"name": "rapidcheck", "path": "/verif/harness/rcx.hpp", "serves_properties": ["C12", "C13", "C14", "C15", "C17"], "kind_free_text": "property-based testing with integrated shrinking"},
+    {"name": "rapidcheck", "path": "/verif/harness/rcx.hpp", "serves_properties": ["C02", "C03", "C04", "C06", "C10", "C11", "C12", "C13", "C14", "C15", "C16", "C17"], "kind_free_text": "property-based testing with integrated shrinking"},
     {"name": "libFuzzer", "path": "/verif/fuzz/fuzz_stream.cpp", "serves_properties": ["C01", "C05", "C06", "C09", "C10"], "kind_free_text": "coverage-guided fuzzing, structure-aware decode, in-target oracles"},
     {"name": "enumerators", "path": "/verif/checks", "serves_properties": ["C12", "C13", "C15", "C17"], "kind_free_text": "exhaustive bounded enumeration, shortest first, sharded over 16 processes"},
 ]
@@ -44,6 +44,34 @@ META = {
         technique="coverage-guided fuzzing with an in-target retention monitor reading the parser's private buffer sizes after every call under generated field limits and max_tx",
         level_text=("Buffered bytes never exceed the configured hard limit and the transaction list never exceeds max_tx+1 on any generated history. Exploration."),
         design_ref="DESIGN.md section 3, C10", level_note=_FZ_NOTE),
+    "C02": dict(
+        engine="rapidcheck exchange generator (harness/httpgen.hpp) + AST oracle",
+        technique="property-based testing: rapidcheck-generated HTTP exchange ASTs (methods, targets, versions, headers with folding/repetition/case, framings, cookies, auth) serialised to wire bytes; round-trip oracle (reported fields == AST) under all chunkers with shrinking",
+        level_text=("Thousands of generated well-formed exchanges, each under whole / every-single-cut / 1-byte / random chunkings and 10 personalities, are reported with exactly "
+                    "the method, target, protocol, header multiset (merged repetitions, unfolded continuations), status, bodies, cookies and credentials of the AST. Exploration."),
+        design_ref="DESIGN.md section 3, C02", level_note="Trusted: the serializer and the expectation derivation in harness/httpgen.hpp + checks/c02.cpp (both from the AST, never from libhtp output). Domain: well-formed messages as the property states."),
+    "C03": dict(
+        engine="rapidcheck exchange generator + chunking metamorphic relation (vdrv projections)",
+        technique="property-based testing with a metamorphic oracle: for generated exchanges (well-formed and mutated) the canonical transaction dump and the coalesced callback projection of every chunking (each single cut, 1 byte per call, random multi-cuts) must equal those of the single-call run",
+        level_text=("Every single cut position of thousands of generated and mutated streams gives the same transactions, flags, bodies and callback projection as the unsplit stream. Exploration; "
+                    "the LF-CR tolerance in response headers (F1) is attributed through trace point T1 and listed as a known finding."),
+        design_ref="DESIGN.md section 3, C03", level_note="Trusted: vdrv canonical dump and projection (harness/vdrv.cpp). Log line numbers and data-callback granularity are outside the compared projection."),
+    "C04": dict(
+        engine="rapidcheck exchange generator + legal-interleaving scheduler",
+        technique="property-based testing over call histories: generated pipelined exchanges delivered under generated legal interleavings of request and response calls (hand-over followed); oracle: pairing by tag (response i attached to request i), PIPELINED flag iff a request line was complete before the previous response, same final dump as the sequential schedule",
+        level_text=("For thousands of generated exchanges x interleavings x cut plans every response is attached to its own request, the transaction list equals the sequential run and the "
+                    "pipelining flag follows the arrival order. Exploration."),
+        design_ref="DESIGN.md section 3, C04", level_note="Trusted: tag-based pairing oracle in checks/c04.cpp. Interleavings that deliver a response before its request are outside the domain (as the property states: legal interleavings)."),
+    "C11": dict(
+        engine="rapidcheck trigger generator",
+        technique="property-based testing: 13 ambiguity triggers in generated spellings (header order, case, whitespace, token lists, filler, line endings, personalities, chunkings); oracle: the documented indicator flag is set at the headers callback and at completion, chunked framing wins over Content-Length",
+        level_text=("Each trigger in thousands of spellings and chunkings raises its indicator. Exploration; one-directional (presence) as the property states."),
+        design_ref="DESIGN.md section 3, C11", level_note="Trusted: trigger table in checks/c11.cpp derived from htp.h flag documentation. D12 (folded Content-Length) is a known finding."),
+    "C16": dict(
+        engine="rapidcheck scenario generator + protocol-following feeder",
+        technique="property-based testing over two-direction call histories: generated CONNECT/Upgrade scenarios (status x payload kind x preceding/following tagged pairs x cut plans x early request calls); oracle: consumed counts around the CONNECT head, sticky TUNNEL with no callbacks/transactions, every tagged request after a refused or plain-HTTP tunnel reported exactly once with its own response",
+        level_text=("~100k (quick) / ~1M (thorough) generated scenarios under 10 personalities satisfy the consumption, tunnel and resume rules. Exploration."),
+        design_ref="DESIGN.md section 3, C16", level_note="Trusted: the feeder in checks/c16.cpp (offers a response only after its request, server tunnel bytes only after TUNNEL). D22 (probe beyond the hard field limit) is a known finding."),
     "C12": dict(
         engine="exhaustive enumeration + rapidcheck vs reference model",
         technique="exhaustive small-alphabet enumeration x full decoder-configuration lattice compared with an independent tokenise-then-map reference model (differential oracle), plus rapidcheck random strings and the personalities through the public route",
